@@ -23,10 +23,10 @@ PARTIAL = [
     "orders, dirtied_queries, computing table) transparency is not a theorem: it is tied to the code by the "
     "correspondence; restart_mid_epoch_witness records that it was false before the F1 fix (former finding F20) and "
     "holds on that history now.",
-    "executor invocations across a restart are equal only up to finding F13 (known_findings.d/C07.json): projection "
-    "nodes re-executed by backward projection depend on the walk order of a backward-edge set, which differs after the "
-    "set was reloaded from the store; attributed only when all values are from-scratch, only projection nodes differ, "
-    "at a choice point of the model, and the model is transparent under each fixed order.",
+    "executor invocations across a restart: before the F13 repair (22e1f15) projection nodes re-executed by backward "
+    "projection depended on the walk order of a backward-edge set, which differs after the set was reloaded from the "
+    "store (formerly attributed to F13); the classification code is kept, but nothing is listed any more: any such "
+    "difference is a VIOLATION.",
     "store_is_image / reload_is_restart take as hypothesis that every change of the stored part has been published "
     "(syncedB) and restart_loses_only_dirtied that nothing is in flight (Quiescent); for the full model both are "
     "validated by the Lean driver after every operation of every generated history (` !unsynced` / ` !busy` flags in "
